@@ -230,17 +230,19 @@ theorem serverPage_split {lt : Name → Name → Bool} (ho : StrictOrder lt) (do
   unfold serverPage
   rw [after_token ho done rest hs tok ht]
 
-/-- the client loop from the split `(done, rest)`: it hands out a prefix of `rest` and either
-finishes the listing (no token, nothing left) or returns the token of what it handed out -/
-theorem clientPage_spec {lt : Name → Name → Bool} (ho : StrictOrder lt) (maxKeys cap : Nat)
-    (hk : 1 ≤ maxKeys) (hc : 1 ≤ cap) :
+/-- the client loop from the split `(done, rest)`: it consumes a prefix of `rest`, hands out its
+convertible keys, and either finishes the listing (no token, nothing left) or returns the token of
+what it consumed — whatever the stop limit is -/
+theorem clientPage_spec {lt : Name → Name → Bool} (ho : StrictOrder lt) (conv : Name → Bool)
+    (pageSize cap : Nat) (limit : Option Nat) (hk : 1 ≤ pageSize) (hc : 1 ≤ cap) :
     ∀ (fuel : Nat) (done rest acc : List Name) (tok : Option Name),
       Sorted lt (done ++ rest) → TokFor done tok → rest.length < fuel →
       ∃ j, j ≤ rest.length ∧
-        (clientPage lt (done ++ rest) maxKeys cap fuel tok acc).1 = acc ++ rest.take j ∧
-        (((clientPage lt (done ++ rest) maxKeys cap fuel tok acc).2 = none ∧ rest.drop j = []) ∨
+        (clientPage lt conv (done ++ rest) pageSize cap limit fuel tok acc).1 = acc ++ (rest.take j).filter conv ∧
+        (((clientPage lt conv (done ++ rest) pageSize cap limit fuel tok acc).2 = none ∧ rest.drop j = []) ∨
          (rest.drop j ≠ [] ∧ 1 ≤ j ∧
-          TokFor (done ++ rest.take j) (clientPage lt (done ++ rest) maxKeys cap fuel tok acc).2)) := by
+          TokFor (done ++ rest.take j) (clientPage lt conv (done ++ rest) pageSize cap limit fuel tok acc).2 ∧
+          ∃ n, limit = some n ∧ n ≤ (clientPage lt conv (done ++ rest) pageSize cap limit fuel tok acc).1.length)) := by
   intro fuel
   induction fuel with
   | zero => intro done rest acc tok _ _ hf; omega
@@ -249,8 +251,8 @@ theorem clientPage_spec {lt : Name → Name → Bool} (ho : StrictOrder lt) (max
     unfold clientPage
     rw [serverPage_split ho done rest hs tok ht]
     simp only
-    have hm : 1 ≤ min maxKeys cap := by omega
-    generalize hmdef : min maxKeys cap = m at hm
+    have hm : 1 ≤ min pageSize cap := by omega
+    generalize hmdef : min pageSize cap = m at hm
     by_cases htr : m < rest.length
     · -- truncated page: `m` keys, more remain
       have hpgl : (rest.take m).length = m := by rw [List.length_take]; omega
@@ -261,73 +263,86 @@ theorem clientPage_spec {lt : Name → Name → Bool} (ho : StrictOrder lt) (max
         omega
       simp only [htr, if_true]
       have htok' := tokFor_append done (rest.take m) hpg
-      by_cases hlen : (acc ++ rest.take m).length < maxKeys
-      · -- continue with the next server page
-        simp only [hlen, if_true]
-        obtain ⟨t, hlast⟩ : ∃ t, (rest.take m).getLast? = some t := by
-          cases h : (rest.take m).getLast? with
-          | none => exact absurd (List.getLast?_eq_none_iff.mp h) hpg
-          | some t => exact ⟨t, rfl⟩
-        rw [hlast] at htok' ⊢
-        simp only
+      obtain ⟨t, hlast⟩ : ∃ t, (rest.take m).getLast? = some t := by
+        cases h : (rest.take m).getLast? with
+        | none => exact absurd (List.getLast?_eq_none_iff.mp h) hpg
+        | some t => exact ⟨t, rfl⟩
+      have cont : ∃ j, j ≤ rest.length ∧
+          (clientPage lt conv (done ++ rest) pageSize cap limit fuel (some t) (acc ++ (rest.take m).filter conv)).1
+            = acc ++ (rest.take j).filter conv ∧
+          (((clientPage lt conv (done ++ rest) pageSize cap limit fuel (some t) (acc ++ (rest.take m).filter conv)).2 = none ∧ rest.drop j = []) ∨
+           (rest.drop j ≠ [] ∧ 1 ≤ j ∧
+            TokFor (done ++ rest.take j) (clientPage lt conv (done ++ rest) pageSize cap limit fuel (some t) (acc ++ (rest.take m).filter conv)).2 ∧
+            ∃ n, limit = some n ∧ n ≤ (clientPage lt conv (done ++ rest) pageSize cap limit fuel (some t) (acc ++ (rest.take m).filter conv)).1.length)) := by
+        rw [hlast] at htok'
         have hsplit : done ++ rest = (done ++ rest.take m) ++ rest.drop m := by
           rw [List.append_assoc, List.take_append_drop]
         have hs2 : Sorted lt ((done ++ rest.take m) ++ rest.drop m) := by rw [← hsplit]; exact hs
         have hf2 : (rest.drop m).length < fuel := by simp [List.length_drop]; omega
-        obtain ⟨j, hj1, hj2, hj3⟩ := ih (done ++ rest.take m) (rest.drop m) (acc ++ rest.take m) (some t) hs2 htok' hf2
+        obtain ⟨j, hj1, hj2, hj3⟩ := ih (done ++ rest.take m) (rest.drop m) (acc ++ (rest.take m).filter conv) (some t) hs2 htok' hf2
         rw [← hsplit] at hj2 hj3
         refine ⟨m + j, by simp [List.length_drop] at hj1; omega, ?_, ?_⟩
         · rw [hj2, List.append_assoc]
           congr 1
-          rw [List.take_add]
+          rw [List.take_add, List.filter_append]
         · have hdd : rest.drop (m + j) = (rest.drop m).drop j := by rw [List.drop_drop]
-          rcases hj3 with ⟨h1, h2⟩ | ⟨h1, h2, h3⟩
+          rcases hj3 with ⟨h1, h2⟩ | ⟨h1, h2, h3, h4⟩
           · left; exact ⟨h1, by rw [hdd]; exact h2⟩
           · right
-            refine ⟨by rw [hdd]; exact h1, by omega, ?_⟩
+            refine ⟨by rw [hdd]; exact h1, by omega, ?_, h4⟩
             rw [List.take_add, ← List.append_assoc]; exact h3
-      · -- enough names: stop and hand the token back
-        simp only [hlen, if_false]
-        refine ⟨m, by omega, rfl, Or.inr ⟨?_, hm, htok'⟩⟩
-        intro h
-        have := congrArg List.length h
-        rw [List.length_drop] at this
-        simp at this
-        omega
+      rw [hlast]
+      cases limit with
+      | none => simpa using cont
+      | some n =>
+        simp only
+        by_cases hlen : (acc ++ (rest.take m).filter conv).length < n
+        · simp only [hlen, decide_true, if_true]; exact cont
+        · -- enough names: stop and hand the token back
+          simp only [hlen, decide_false, Bool.false_eq_true, if_false]
+          refine ⟨m, by omega, rfl, Or.inr ⟨?_, hm, by rw [← hlast]; exact htok', n, rfl, by omega⟩⟩
+          intro h
+          have := congrArg List.length h
+          rw [List.length_drop] at this
+          simp at this
+          omega
     · -- last server page: everything that was left
       simp only [htr, if_false]
       have hall : rest.take m = rest := List.take_of_length_le (by omega)
-      by_cases hlen : (acc ++ rest.take m).length < maxKeys
-      · simp only [hlen, if_true]
-        exact ⟨rest.length, Nat.le_refl _, by simp [hall], Or.inl ⟨by simp, by simp⟩⟩
-      · simp only [hlen, if_false]
-        exact ⟨rest.length, Nat.le_refl _, by simp [hall], Or.inl ⟨by simp, by simp⟩⟩
+      refine ⟨rest.length, Nat.le_refl _, ?_, Or.inl ⟨?_, by simp⟩⟩
+      · cases limit with
+        | none => simp [hall]
+        | some n => simp only; split <;> simp [hall]
+      · cases limit with
+        | none => simp
+        | some n => simp only; split <;> simp
 
-/-- following the tokens from the split `(done, rest)` hands out exactly `rest`, in order -/
-theorem listAll_spec {lt : Name → Name → Bool} (ho : StrictOrder lt) (maxKeys cap : Nat)
+/-- following the tokens from the split `(done, rest)` hands out exactly the convertible keys of
+`rest`, in order -/
+theorem listAll_spec {lt : Name → Name → Bool} (ho : StrictOrder lt) (conv : Name → Bool) (maxKeys cap : Nat)
     (hk : 1 ≤ maxKeys) (hc : 1 ≤ cap) :
     ∀ (fuel : Nat) (done rest : List Name) (tok : Option Name),
       Sorted lt (done ++ rest) → TokFor done tok → rest.length < fuel →
-      (listAll lt (done ++ rest) maxKeys cap fuel tok).flatten = rest := by
+      (listAll lt conv (done ++ rest) maxKeys cap fuel tok).flatten = rest.filter conv := by
   intro fuel
   induction fuel with
   | zero => intro done rest tok _ _ hf; omega
   | succ fuel ih =>
     intro done rest tok hs ht hf
     unfold listAll
-    obtain ⟨j, hj1, hj2, hj3⟩ := clientPage_spec ho maxKeys cap hk hc ((done ++ rest).length + 1) done rest [] tok hs ht
+    obtain ⟨j, hj1, hj2, hj3⟩ := clientPage_spec ho conv maxKeys cap (some maxKeys) hk hc ((done ++ rest).length + 1) done rest [] tok hs ht
       (by simp; omega)
-    generalize hres : clientPage lt (done ++ rest) maxKeys cap ((done ++ rest).length + 1) tok [] = res at hj2 hj3
+    generalize hres : clientPage lt conv (done ++ rest) maxKeys cap (some maxKeys) ((done ++ rest).length + 1) tok [] = res at hj2 hj3
     obtain ⟨pg, next⟩ := res
     simp only [List.nil_append] at hj2
     simp only at hj3 ⊢
     subst hj2
-    rcases hj3 with ⟨h1, h2⟩ | ⟨h1, h2, h3⟩
+    rcases hj3 with ⟨h1, h2⟩ | ⟨h1, h2, h3, _⟩
     · subst h1
       simp only [List.flatten_cons, List.flatten_nil, List.append_nil]
       have := List.take_append_drop j rest
       rw [h2, List.append_nil] at this
-      exact this
+      rw [this]
     · have hjl : (rest.take j).length = j := by rw [List.length_take]; omega
       cases hn : next with
       | none =>
@@ -348,6 +363,6 @@ theorem listAll_spec {lt : Name → Name → Bool} (ho : StrictOrder lt) (maxKey
         have hf2 : (rest.drop j).length < fuel := by simp [List.length_drop]; omega
         have := ih (done ++ rest.take j) (rest.drop j) (some t) hs2 h3 hf2
         rw [← hsplit] at this
-        rw [this, List.take_append_drop]
+        rw [this, ← List.filter_append, List.take_append_drop]
 
 end KrakenModel.Proof.C37
